@@ -7,6 +7,7 @@ current backend; switches never fail because something died.
 """
 from __future__ import annotations
 
+import copy
 import gc
 import random
 
@@ -320,6 +321,7 @@ class World:
 
     def _build(self, kind, a):
         pyhf = self.pyhf
+        a = copy.deepcopy(a)   # object and twin never share argument objects (nor with the recorded op)
         if kind == "model":
             ms = {"normsys": {"interpcode": a["normsys_code"]}, "histosys": {"interpcode": a["histosys_code"]}}
             if a["how"] == "workspace":
